@@ -57,6 +57,50 @@ UNESCAPED_DQ = re.compile(r'(?<!\\)(?:\\\\)*"')
 # generator: Enum modules whose member values are literal expressions
 
 
+class Budget(Exception):
+	"""A single real-code / oracle evaluation exceeded its time budget."""
+
+
+def budgeted(seconds: float, fn: Any, *args: Any) -> Any:
+	"""Run `fn(*args)` with a wall budget (SIGALRM, main thread): a hanging or very slow case raises Budget instead of stalling the check."""
+	import signal
+
+	def on_alarm(signum: int, frame: Any) -> None:
+		raise Budget(f'no answer within {seconds:.0f} s')
+
+	old = signal.signal(signal.SIGALRM, on_alarm)
+	signal.setitimer(signal.ITIMER_REAL, seconds)
+	try:
+		return fn(*args)
+	finally:
+		signal.setitimer(signal.ITIMER_REAL, 0)
+		signal.signal(signal.SIGALRM, old)
+
+
+CASE_BUDGET_S = 30.0   # one module: load, every member twice through the real evaluator (or Py2Cpp), CPython eval of every member
+
+
+def observe_guarded(ctx: Ctx, fn: Any, c: Any, *args: Any) -> None:
+	"""One observation with its budget; whatever goes wrong is recorded on the case (the search turns it into a finding)."""
+	try:
+		budgeted(CASE_BUDGET_S, fn, *args)
+	except Unencodable as e:
+		c.error = f'unencodable: {e}'
+	except Budget as e:
+		c.error = f'observe: timeout ({e})'
+	except Exception as e:  # noqa: BLE001 - the real code rejected a generated module: the search reports it
+		c.error = f'observe: {exc_enum(e)}'
+
+
+def past(ctx: Ctx, phase: str, deadline: float, done: int, planned: int) -> bool:
+	"""Total wall deadline of a phase: stop generating further cases (recorded in the evidence notes), never hang."""
+	import time
+	if time.time() < deadline:
+		return False
+	ctx.notes.append(f'{phase}: wall deadline reached after {done} of {planned} cases; the rest was not generated')
+	return True
+
+
 class Danger(Exception):
 	"""The candidate expression would make CPython allocate without bound (huge shift / repetition): regenerate."""
 
@@ -829,8 +873,12 @@ def fill_oracles(cases: list[Case], max_rounds: int = 80) -> int:
 				c.error = 'bad-op'
 				continue
 			if needs:
-				for k in needs:
-					c.oracle[k] = answer(k)
+				try:
+					for k in needs:
+						c.oracle[k] = answer(k)
+				except Exception as e:  # noqa: BLE001 - a term the float interpretation cannot read: the case is dropped and counted
+					c.error = f'oracle: {type(e).__name__}: {e}'
+					continue
 				nxt.append(c)
 		pending = nxt
 	return rounds
@@ -862,13 +910,13 @@ def make_cases(ctx: Ctx, app: Any, name: str, n: int, regions: frozenset[str], c
 			cases.append(Case(gen_module(rng, regions, depth, 1 + i % 3, 4 + i % 5, boost=5.0), f'malformed#{i}'))
 		else:
 			cases.append(Case(gen_module(rng, regions - MALFORMED_REGIONS, depth, 1 + i % 3, 4 + i % 5), f'{name}#{i}'))
-	for c in cases:
-		try:
-			observe(app, c, rng)
-		except Unencodable as e:
-			c.error = f'unencodable: {e}'
-		except Exception as e:  # noqa: BLE001 - the real code rejected a generated module: the search reports it
-			c.error = f'observe: {exc_enum(e)}'
+	import time
+	deadline = time.time() + ctx.scale(60, 600)
+	for k, c in enumerate(cases):
+		if past(ctx, f'observe {name}', deadline, k, len(cases)):
+			del cases[k:]
+			break
+		observe_guarded(ctx, observe, c, app, c, rng)
 	return cases
 
 
@@ -1034,6 +1082,14 @@ def unescape(s: str) -> str:
 
 
 def compare(real: str, py: Any, escaped: bool) -> str | None:
+	"""Never raises: whatever the real code returned, if it cannot be judged that is reported (a finding), not a harness crash."""
+	try:
+		return _compare(real, py, escaped)
+	except Exception as e:  # noqa: BLE001
+		return f'the result {real[:80]!r} could not be compared with {type(py).__name__}: {type(e).__name__}: {e}'
+
+
+def _compare(real: str, py: Any, escaped: bool) -> str | None:
 	"""None = the property holds for this member; otherwise a short description of the violation."""
 	if not (real.startswith(('int ', 'float ', 'str ', 'other '))):
 		if real.startswith('Errors.'):
@@ -1067,17 +1123,17 @@ def search_real(ctx: Ctx, app: Any, seen_cases: list[Case]) -> SearchResult:
 	n = ctx.scale(300, 4000)
 	regions_all = ALL_REGIONS
 	regions_in = ALL_REGIONS - {'triple', 'prefix', 'escape', 'strstr', 'arity'}
+	import time
+	deadline = time.time() + ctx.scale(60, 600)
 	for i in range(n):
 		depth = 1 + i % 5
 		regions = regions_in if i % 3 else regions_all
+		if past(ctx, 'search exec==eval', deadline, i, n):
+			break
 		c = Case(gen_module(rng, regions, depth, 1 + i % 3, 4 + i % 6, boost=3.0 if i % 7 == 6 else 1.0), f'search#{i}')
-		try:
-			observe(app, c, rng)
-		except Unencodable:
-			# the encoding is irrelevant here; only the observations are needed
-			pass
-		except Exception as e:  # noqa: BLE001
-			c.error = f'observe: {exc_enum(e)}'
+		observe_guarded(ctx, observe, c, app, c, rng)
+		if c.error is not None and c.error.startswith('unencodable'):
+			c.error = None  # the encoding is irrelevant here; only the observations are needed
 		cases.append(c)
 	hist: dict[str, int] = {}
 	texts = set()
@@ -1188,6 +1244,13 @@ def read_emitted(text: str) -> tuple[str, Any] | None:
 
 
 def compare_output(text: str, py: Any, escaped: bool) -> str | None:
+	try:
+		return _compare_output(text, py, escaped)
+	except Exception as e:  # noqa: BLE001
+		return f'the emitted text {text[:80]!r} could not be compared with {type(py).__name__}: {type(e).__name__}: {e}'
+
+
+def _compare_output(text: str, py: Any, escaped: bool) -> str | None:
 	if _is_exc(py):
 		return None
 	got = read_emitted(text)
@@ -1272,13 +1335,13 @@ def make_output_cases(ctx: Ctx, only: list[list[Member]] | None = None) -> list[
 	cases = [Case(enums, f'corpus:{label}') for label, enums in load_corpus()] if only is None else [Case(only, 'replay')]
 	for i in range(ctx.scale(110, 500) if only is None else 0):
 		cases.append(Case(gen_module(rng, regions, 1 + i % 4, 1 + i % 3, 4 + i % 5, boost=3.0 if i % 6 == 5 else 1.0, homogeneous=i % 4 != 3), f'output#{i}'))
-	for c in cases:
-		try:
-			observe_output(app, c)
-		except Unencodable as e:
-			c.error = f'unencodable: {e}'
-		except Exception as e:  # noqa: BLE001
-			c.error = f'observe: {exc_enum(e)}'
+	import time
+	deadline = time.time() + ctx.scale(60, 400)
+	for k, c in enumerate(cases):
+		if past(ctx, 'observe output', deadline, k, len(cases)):
+			del cases[k:]
+			break
+		observe_guarded(ctx, observe_output, c, app, c)
 	return cases
 
 
@@ -1378,9 +1441,9 @@ def search_output(ctx: Ctx, cases: list[Case]) -> SearchResult:
 
 
 STATEMENTS = {
-	'sound': "for every expression, environment, fuel and interpretation of float: if CPython (0X literals cut out) evaluates e to v2 then the folder returns v ~ v2 (same type, same value, string content) or refuses (an application error that is not a wrapped Python exception, or the recursion limit) - induction over the fuel and the flat chains",
-	'agree': "no guard: execImpl e = ok v and evalPy e = ok v2 imply v ~ v2",
-	'refuse': 'an error of execImpl is a refusal (OperationNotAllowed, UnresolvedSymbol, an error of type inference, the recursion limit) or CPython raises on e as well, as long as no 0X literal is evaluated',
+	'sound': 'for every expression, environment, fuel and interpretation of float (FloatText: str(x) has no backslash, float(text) rejects a backslash): if CPython (0X literals and string tokens with a backslash cut out) evaluates e to v2 then the folder returns v ~ v2 (same type, same value, string content) or refuses (an application error that is not a wrapped Python exception, or the recursion limit) - induction over the fuel and the flat chains',
+	'agree': "no guard on the expression: execImpl e = ok v and evalPy e = ok v2 imply v ~ v2, INCLUDING string tokens with escape sequences: a folder string is a raw body between two quote characters and CPython's string is what the body decodes to (decodeEsc: octal, \\xhh, one-character and unknown escapes; \\u, \\U, \\N{...} outside evalPy); needs FloatText of the float interpretation",
+	'refuse': 'an error of execImpl is a refusal (OperationNotAllowed, UnresolvedSymbol, an error of type inference, the recursion limit) or CPython raises on e as well, as long as no 0X literal and no string token with a backslash is evaluated (int of an escaped digit string is a wrapped ValueError where CPython has a value: an application error, allowed)',
 	'chain': 'evaluating the left-nested tree CPython builds for a flat chain = the left fold over the chain (operand, operation, left to right, first exception wins)',
 	'consistent_bindAll': "executing the Enum bodies top to bottom yields an environment consistent with the folder's member lookup when member keys are distinct (hypothesis Cons is satisfiable)",
 	'output_agree': "second observation point, no guard but one: whenever CPython evaluates the member value to v2 and the type answer of Reflections fits v2, the text Py2Cpp.on_relay inlines for Enum.Member.value (emitValue on top of execImpl: shortcut for Integer/Float tokens, str() of the folded value, parentheses for negatives, [1:-1] for str, relay/literalize.j2) read back denotes v2 with the same type; guard on the VALUE: a string value contains no double quote (the template prints the content raw)",
@@ -1432,11 +1495,12 @@ def run(ctx: Ctx) -> int:
 		translate_ok=translate_ok, translate_msg=translate_msg,
 		statements=STATEMENTS,
 		partial={
-			'proved': 'a different value is never produced: agreement of value and type (no guard), or refusal, for every expression of the model (literals without backslash, unary sign, parentheses, the ten operators in flat chains, casts, member references), for every interpretation of float',
+			'proved': 'a different value is never produced: agreement of value and type (no guard; string tokens with octal, \\xhh and one-character escapes included), or refusal, for every expression of the model (literals, unary sign, parentheses, the ten operators in flat chains, casts, member references), for every interpretation of float',
 			'correspondence_only': 'that execImpl is LiteralEvaluator on the Procedure machine and evalPy is CPython (incl. floor %, shifts, two\'s-complement bitwise ops, int()/float()/str() spellings)',
-			'search_only': 'values of string tokens with escape sequences (evalPy answers unsupported; the join rule itself is proved to keep the decoding), IEEE behaviour of the real floats',
+			'search_only': 'string tokens with \\u, \\U, \\N{...} escapes (evalPy answers unsupported), the C++ reading of an inlined text with escapes, IEEE behaviour of the real floats',
 		},
 		assumptions=[
+			'FloatText: the float interpretation prints no backslash in str(x) and float(text) rejects a text with a backslash (true of CPython; hypotheses of sound/agree/refuse/output_*)',
 			'float is abstract: the theorems hold for every interpretation of add/sub/mul/div/mod/neg/ofInt/toInt/parse/toStr/truediv; the tie instantiates it with CPython floats',
 			'a member whose CPython evaluation raises is modelled as re-raising when read (CPython would abort the module)',
 			'names of enum members do not shadow the called builtins; own-enum members are referenced by bare name, other enums as Enum.Member.value',
